@@ -161,8 +161,19 @@ def run(ctx):
         addo({"kind": "f0", "atom": a, "Q": rng.choice([0.5, 1.0, 5.0, 20.0, 70.0])})
     # ---- execute
     nb = 16
+    # the neutron (symbol 'n') has no table and nitrogen (file n.nff) has one, whichever of the two an interpreter asks first
+    rows_of.setdefault(7, read_nff(eb[7][1]))
+    nE = [float(r[0]) / 1000.0 for r in rows_of[7]]
+    order = []
+    for first, second in ((0, 7), (7, 0)):
+        ts = []
+        for z in (first, second, first):
+            for E in (nE[len(nE) // 2], 8.048, rng.choice(nE)):
+                ts.append({"kind": "sf", "z": z, "E": [E], "via": "el", "id": "ord%d_%d" % (first, len(ts))})
+        order.append(ts)               # (these run in interpreters of their own, in this order)
     outs = forkrun.map_fresh("ptv.xrayexec", "observe", [{"items": items[i::nb]} for i in range(nb)] +
-                             [{"items": others[i::nb]} for i in range(nb)])
+                             [{"items": others[i::nb]} for i in range(nb)] + [{"items": ts} for ts in order])
+    items += [t for ts in order for t in ts]
     sf_by_z, oth = {}, [{"ev": "kcheck", "id": "kcheck"}]
     task = dict((t["id"], t) for t in items + others)
     for k, (st, evs) in enumerate(outs):
